@@ -16,6 +16,7 @@ import Upnp.Proto
 import Upnp.Model.CIDict
 import Upnp.Spec.C16
 import Upnp.Model.C16Ops
+import Upnp.Model.C16Heap
 namespace Upnp.Drv.C16
 open Upnp Upnp.Proto Upnp.C16 PyDict
 
@@ -153,27 +154,25 @@ def runS (sa : Array (SMap K V)) (ops : List (Op K V)) : Array (SMap K V) :=
 def runSV (sv : Array (SMap K V)) (ops : List (Op K V)) : Array (SMap K V) :=
   ops.foldl (fun acc op => tabulateV (stepS lower (fun i => acc.getD i []) op)) sv
 
-/-- allocate a fresh object for variable `r` -/
-def fresh (st : St) (r : Nat) : St × Nat :=
-  ({ st with handle := st.handle.setIfInBounds r st.next, next := st.next + 1 }, st.next)
-
-/-- translate a line on variables into an operation on objects (allocating where Python does) -/
-def parseOp (st : St) (toks : List String) : Option (St × Option (Op K V)) :=
+/-- a line on variables as an operation of the object-level machine (`Model/C16Heap.lean`) -/
+def parseH (toks : List String) : Option (HOp K V) :=
   match toks with
-  | ["new", r, "dict", ps] => let (st', c) := fresh st r.toNat!; some (st', some (.newDict c (parsePairs ps)))
-  | ["new", r, "ci", a] => let src := st.h a.toNat!; let (st', c) := fresh st r.toNat!; some (st', some (.newCI c src))
-  | ["set", r, k, v] => (parseV v).map fun v => (st, some (.set (st.h r.toNat!) k v))
-  | ["del", r, k] => some (st, some (.del (st.h r.toNat!) k))
-  | ["dell", r, lk] => some (st, some (.delLower (st.h r.toNat!) lk))
-  | ["copy", r, a] => let src := st.h a.toNat!; let (st', c) := fresh st r.toNat!; some (st', some (.copy c src))
-  | ["combine", r, a, b] =>
-      let x := st.h a.toNat!; let y := st.h b.toNat!
-      let (st', c) := fresh st r.toNat!; some (st', some (.combine c x y))
-  | ["combl", r, a, ps] => let src := st.h a.toNat!; let (st', c) := fresh st r.toNat!; some (st', some (.combineLower c src (parsePairs ps)))
-  | ["repl", r, ps] => let (st', c) := fresh st r.toNat!; some (st', some (.replaceDict c (parsePairs ps)))
-  | ["replci", r, a] =>
-      -- `r.replace(a)`: r's two dicts ARE a's from now on (no model operation: same object)
-      some ({ st with handle := st.handle.setIfInBounds r.toNat! (st.h a.toNat!) }, none)
+  | ["new", r, "dict", ps] => some (.newDict r.toNat! (parsePairs ps))
+  | ["new", r, "ci", a] => some (.newCI r.toNat! a.toNat!)
+  | ["set", r, k, v] => (parseV v).map fun v => .set r.toNat! k v
+  | ["del", r, k] => some (.del r.toNat! k)
+  | ["dell", r, lk] => some (.delLower r.toNat! lk)
+  | ["copy", r, a] => some (.copy r.toNat! a.toNat!)
+  | ["combine", r, a, b] => some (.combine r.toNat! a.toNat! b.toNat!)
+  | ["combl", r, a, ps] => some (.combineLower r.toNat! a.toNat! (parsePairs ps))
+  | ["repl", r, ps] => some (.replaceDict r.toNat! (parsePairs ps))
+  | ["replci", r, a] => some (.replaceCI r.toNat! a.toNat!)
+  | _ => none
+
+/-- the cell-level operation whose `KeyError` decides the result token -/
+def raiseOp (st : St) : HOp K V → Option (Op K V)
+  | .del v k => some (.del (st.h v) k)
+  | .delLower v lk => some (.delLower (st.h v) lk)
   | _ => none
 
 def stepOp (st : St) (toks : List String) : St :=
@@ -193,33 +192,31 @@ def stepOp (st : St) (toks : List String) : St :=
                 lastSpecRes := if smapEq (st.s (st.h a.toNat!)) (st.s (st.h b.toNat!)) then "F" else "T",
                 lastSpecResV := if smapEq (st.v a.toNat!) (st.v b.toNat!) then "F" else "T" }
   | ["pop", r, k] =>
-      -- MutableMapping.pop: `value = self[key]` (KeyError), then `del self[key]`
+      -- MutableMapping.pop (`popM` / `popS`, theorem `pop_spec`)
       let c := st.h r.toNat!
       let tok (o : Option V) : String := match o with | some v => fmtV v | none => "KeyError"
-      { st with ma := if (CIDict.getitem lower (st.m c) k).isSome then runM st.ma [.del c k] else st.ma,
-                sa := runS st.sa [.del c k], sv := runSV st.sv [.del r.toNat! k],
-                lastRes := tok (CIDict.getitem lower (st.m c) k),
-                lastSpecRes := tok (SMap.lookup lower (st.s c) k), lastSpecResV := tok (SMap.lookup lower (st.v r.toNat!) k) }
+      let (rm, dm) := popM lower (st.m c) k
+      let (rs, ds) := popS lower (st.s c) k
+      let (rv, dv) := popS lower (st.v r.toNat!) k
+      { st with ma := st.ma.setIfInBounds c dm, sa := st.sa.setIfInBounds c ds, sv := st.sv.setIfInBounds r.toNat! dv,
+                lastRes := tok rm, lastSpecRes := tok rs, lastSpecResV := tok rv }
   | ["setdefault", r, k, v] =>
-      -- MutableMapping.setdefault: `try: return self[key] except KeyError: self[key] = default; return default`
+      -- MutableMapping.setdefault (`setdefaultM` / `setdefaultS`, theorem `setdefault_spec`)
       (match parseV v with
        | none => note { st with corrOk := false } "bad value"
        | some v =>
          let c := st.h r.toNat!
-         let tok (o : Option V) : String := fmtV (o.getD v)
-         let mm := CIDict.getitem lower (st.m c) k
-         let ms := SMap.lookup lower (st.s c) k
-         let mv := SMap.lookup lower (st.v r.toNat!) k
-         { st with ma := if mm.isNone then runM st.ma [.set c k v] else st.ma,
-                   sa := if ms.isNone then runS st.sa [.set c k v] else st.sa,
-                   sv := if mv.isNone then runSV st.sv [.set r.toNat! k v] else st.sv,
-                   lastRes := tok mm, lastSpecRes := tok ms, lastSpecResV := tok mv })
+         let (rm, dm) := setdefaultM lower (st.m c) k v
+         let (rs, ds) := setdefaultS lower (st.s c) k v
+         let (rv, dv) := setdefaultS lower (st.v r.toNat!) k v
+         { st with ma := st.ma.setIfInBounds c dm, sa := st.sa.setIfInBounds c ds, sv := st.sv.setIfInBounds r.toNat! dv,
+                   lastRes := fmtV rm, lastSpecRes := fmtV rs, lastSpecResV := fmtV rv })
   | ["update", r, ps] =>
-      -- MutableMapping.update(mapping): `for key in other: self[key] = other[key]`
+      -- MutableMapping.update(mapping) (`updateM` / `updateS`, theorem `update_spec`)
       let c := st.h r.toNat!
       let l := PyDict.ofList (parsePairs ps)
-      { st with ma := runM st.ma (l.map fun p => .set c p.1 p.2), sa := runS st.sa (l.map fun p => .set c p.1 p.2),
-                sv := runSV st.sv (l.map fun p => .set r.toNat! p.1 p.2),
+      { st with ma := st.ma.setIfInBounds c (updateM lower (st.m c) l), sa := st.sa.setIfInBounds c (updateS lower (st.s c) l),
+                sv := st.sv.setIfInBounds r.toNat! (updateS lower (st.v r.toNat!) l),
                 lastRes := "ok", lastSpecRes := "ok", lastSpecResV := "ok" }
   | ["clear", r] =>
       -- MutableMapping.clear: popitem until empty
@@ -290,13 +287,20 @@ def stepOp (st : St) (toks : List String) : St :=
     let (sv', resV) := match parseOpV toks with
       | some opv => (tabulateV (stepS lower st.v opv), if raisesS lower st.v opv then "KeyError" else "ok")
       | none => (st.sv, "ok")
-    match parseOp st toks with
-    | some (st', some op) =>
-        if st'.next > nCells then note { st with corrOk := false } "too many objects in one case" else
-        { st' with ma := tabulate (stepM lower st.m op), sa := tabulate (stepS lower st.s op), sv := sv',
-                   lastRes := if raisesM lower st.m op then "KeyError" else "ok",
-                   lastSpecRes := if raisesS lower st.s op then "KeyError" else "ok", lastSpecResV := resV }
-    | some (st', none) => { st' with sv := sv', lastRes := "ok", lastSpecRes := "ok", lastSpecResV := "ok" }
+    match parseH toks with
+    | some hop =>
+        -- the object-level machine of the theorems (`c16_object_history`, `copy_independent`), run on the
+        -- model and on the abstract map under one handle table; results are tabulated (see `nCells`)
+        let hm := hstep (stepM lower) ⟨st.m, st.h, st.next⟩ hop
+        let hs := hstep (stepS lower) ⟨st.s, st.h, st.next⟩ hop
+        if hm.next > nCells then note { st with corrOk := false } "too many objects in one case" else
+        let (rm, rs) := match raiseOp st hop with
+          | some op => (raisesM lower st.m op, raisesS lower st.s op)
+          | none => (false, false)
+        { st with ma := tabulate hm.cells, sa := tabulate hs.cells, sv := sv',
+                  handle := tabulateV hm.handle, next := hm.next,
+                  lastRes := if rm then "KeyError" else "ok",
+                  lastSpecRes := if rs then "KeyError" else "ok", lastSpecResV := resV }
     | none => note { st with corrOk := false } s!"bad-op {" ".intercalate toks}"
 
 def main : IO UInt32 := do
